@@ -117,7 +117,12 @@ type ErrPanic struct{ Msg string }
 func (e *ErrPanic) Error() string { return "PANIC: " + e.Msg }
 
 func (w *World) AddWallet(name string, defaultMint int) (*WalletNode, error) {
-	wn := &WalletNode{Name: name, Dir: filepath.Join(w.Dir, name), world: w, DefaultURL: w.Mints[defaultMint].URL}
+	return w.AddWalletDir(name, filepath.Join(w.Dir, name), defaultMint)
+}
+
+// AddWalletDir loads a wallet from an explicit directory (e.g. one created by Restore).
+func (w *World) AddWalletDir(name, dir string, defaultMint int) (*WalletNode, error) {
+	wn := &WalletNode{Name: name, Dir: dir, world: w, DefaultURL: w.Mints[defaultMint].URL}
 	if err := wn.load(); err != nil {
 		return nil, err
 	}
